@@ -12,13 +12,13 @@ def effDelta : Eff → Int
 
 /-- connection states a connection that registered after `closing` can be in -/
 def noService : PC → Bool
-  | .registered | .closingCheck0 | .deferredClose | .counterDec | .waitingForLockUnreg
+  | .registered | .closingCheck0 | .deferredClose | .closingSock | .counterDec | .waitingForLockUnreg
   | .lockedUnreg | .deleted | .unregistered => true
   | _ => false
 
 /-- connection states after a request was read while `closing` -/
 def dropPath : PC → Bool
-  | .closingCheck | .deferredClose | .counterDec | .waitingForLockUnreg | .lockedUnreg | .deleted
+  | .closingCheck | .deferredClose | .closingSock | .counterDec | .waitingForLockUnreg | .lockedUnreg | .deleted
   | .unregistered => true
   | _ => false
 
